@@ -149,9 +149,9 @@ theorem lemma_leaf_core (g : Getter) (d k : Nat) (h : FieldHdr) (t : Ty) (p : By
     · exact Or.inl h
     · right
       refine ⟨e, ?_, ?_⟩
-      · simp only [expect, hpath, valAt, hi]
+      · simp only [expect, hpath, lemma_valAt_one init k iv hi]
         exact he
-      · simp only [holds, hpath, valAt, hi, hr]
+      · simp only [holds, hpath, lemma_valAt_one init k iv hi, lemma_valAt_one res k rv hr]
         cases e <;> exact hh
   | inr st =>
     cases st with
@@ -163,7 +163,7 @@ theorem lemma_leaf_core (g : Getter) (d k : Nat) (h : FieldHdr) (t : Ty) (p : By
       left
       refine ⟨leafAt k h t p as, by simp, c, ?_, ?_⟩
       · rw [hc, hname]; rfl
-      · simp only [expect, hpath, valAt, hi]
+      · simp only [expect, hpath, lemma_valAt_one init k iv hi]
         exact hh
 
 
